@@ -480,16 +480,22 @@ use varpulis_runtime::engine::Engine;
 #[derive(Clone)]
 enum Op { Ev(Event), Wm(String, i64), Var(String, Value) }
 
-struct Prog { text: String, types: Vec<&'static str>, tags: Vec<&'static str>, wm: bool, var: bool }
+struct Prog { text: String, types: Vec<&'static str>, tags: Vec<&'static str>, wm: bool, var: bool,
+    /// for a single-window program without watermarks: (model kind, size/gap ns, slide ns, n, m) of stream W
+    wspec: Option<(&'static str, i64, i64, u64, u64)> }
 
-fn window_spec(r: &mut Rng, tags: &mut Vec<&'static str>) -> String {
+fn window_spec(r: &mut Rng, tags: &mut Vec<&'static str>) -> String { window_spec2(r, tags).0 }
+
+/// the VPL window argument and (kind, size ns, slide ns, n, m) for the model
+fn window_spec2(r: &mut Rng, tags: &mut Vec<&'static str>) -> (String, (&'static str, i64, i64, u64, u64)) {
+    const S: i64 = 1_000_000_000;
     match r.below(7) {
-        0 => { tags.push("tumbling"); format!("{}s", 1 + r.below(3)) }
-        1 => { tags.push("sliding"); let sl = 1 + r.below(2); format!("{}s, sliding: {}s", sl + r.below(3), sl) }
-        2 => { tags.push("count"); format!("{}", 2 + r.below(3)) }
-        3 | 4 => { tags.push("slidingCount"); let sl = 1 + r.below(3); format!("{}, sliding: {}", 2 + r.below(3), sl) }
-        5 => { tags.push("session"); format!("session: {}s", 1 + r.below(2)) }
-        _ => { tags.push("tumbling-ms"); format!("{}ms", 500 + 250 * r.below(6)) }
+        0 => { tags.push("tumbling"); let d = 1 + r.below(3); (format!("{}s", d), ("tumbling", d as i64 * S, 0, 0, 0)) }
+        1 => { tags.push("sliding"); let sl = 1 + r.below(2); let d = sl + r.below(3); (format!("{}s, sliding: {}s", d, sl), ("sliding", d as i64 * S, sl as i64 * S, 0, 0)) }
+        2 => { tags.push("count"); let n = 2 + r.below(3); (format!("{}", n), ("count", 0, 0, n, 0)) }
+        3 | 4 => { tags.push("slidingCount"); let sl = 1 + r.below(3); let n = 2 + r.below(3); (format!("{}, sliding: {}", n, sl), ("slidingCount", 0, 0, n, sl)) }
+        5 => { tags.push("session"); let g = 1 + r.below(2); (format!("session: {}s", g), ("session", g as i64 * S, 0, 0, 0)) }
+        _ => { tags.push("tumbling-ms"); let ms = 500 + 250 * r.below(6); (format!("{}ms", ms), ("tumbling", ms as i64 * 1_000_000, 0, 0, 0)) }
     }
 }
 
@@ -497,19 +503,32 @@ fn gen_prog(r: &mut Rng) -> Prog {
     let mut tags: Vec<&'static str> = Vec::new();
     let mut wm = false;
     let mut var = false;
+    let mut wspec = None;
     let kind = r.below(20);
     let (text, types): (String, Vec<&'static str>) = match kind {
         0..=6 => {
             // windows, optionally partitioned, with or without aggregation
             let part = r.chance(2, 5);
-            let w = window_spec(r, &mut tags);
+            let (w, spec) = window_spec2(r, &mut tags);
             if part { tags.push("partitioned"); }
             wm = r.chance(1, 4) && !tags.contains(&"count") && !tags.contains(&"slidingCount");
-            let mut t = String::from("stream W = T");
+            // now and then the window stream reads a derived stream instead of the raw event type
+            let derived = !wm && r.chance(1, 5);
+            let mut t = if derived { tags.push("derived-source"); String::from("stream F = T\n    .where(id >= 0)\n    .emit(id: id, x: x, k: k)\n\nstream W = F") } else { String::from("stream W = T") };
+            if !derived && r.chance(1, 5) { tags.push("where"); t.push_str("\n    .where(id >= 0)"); }
             if wm { tags.push("watermark"); t.push_str(&format!("\n    .watermark(out_of_order: {}s)", r.below(3))); if r.chance(1, 2) { t.push_str("\n    .allowed_lateness(1s)"); tags.push("lateness"); } }
             if part { t.push_str("\n    .partition_by(k)"); }
+            if !wm && !derived {
+                let k = match (spec.0, part) { ("tumbling", true) => "pTumbling", ("sliding", true) => "pSliding", ("count", true) => "pCount",
+                    ("slidingCount", true) => "pSlidingCount", ("session", true) => "pSession", (k, _) => k };
+                wspec = Some((k, spec.1, spec.2, spec.3, spec.4));
+            }
             t.push_str(&format!("\n    .window({})", w));
-            if r.chance(3, 5) { tags.push("aggregate"); t.push_str("\n    .aggregate(n: count(), s: sum(x), lo: min(x))\n    .emit(n: n, s: s, lo: lo)"); }
+            if r.chance(3, 5) {
+                tags.push("aggregate"); t.push_str("\n    .aggregate(n: count(), s: sum(x), lo: min(x))");
+                if r.chance(1, 4) { tags.push("having"); t.push_str("\n    .having(n >= 2)"); }
+                t.push_str("\n    .emit(n: n, s: s, lo: lo)");
+            }
             else { t.push_str("\n    .emit(id: id, x: x)"); }
             if wm && r.chance(2, 3) {
                 // a second watermarked source: the effective watermark is the minimum over both
@@ -566,7 +585,7 @@ fn gen_prog(r: &mut Rng) -> Prog {
         let mut ty = types.clone(); ty.push("T");
         (format!("{}\n\nstream W2 = T\n    .window({})\n    .aggregate(n: count())\n    .emit(n: n)", text, w), ty)
     } else { (text, types) };
-    Prog { text, types, tags, wm, var }
+    Prog { text, types, tags, wm, var, wspec }
 }
 
 fn gen_ops(r: &mut Rng, p: &Prog, n: usize, c2: &mut Ctx2) -> Vec<Op> {
@@ -675,6 +694,7 @@ fn run_scenario(ctx: &mut Ctx, rt: &tokio::runtime::Runtime, sc: &Scenario, emit
     if base != again { ctx.count("c19:nondeterministic-program-skipped"); return; }
     ctx.directive("new");
     ctx.directive(&format!("prog {} | {}", sc.prog.tags.join(","), sc.prog.text.replace('\n', " ⏎ ")));
+    if let Some((k, d, sl, n, m)) = sc.prog.wspec { ctx.directive(&format!("wspec W {} {} {} {} {}", k, d, sl, n, m)); ctx.count("c19:window-checkpoint-replayed-on-model"); }
     for o in &sc.ops { ctx.directive(&format!("op {}", op_text(o))); }
     ctx.count(if with_ts { "c19:output-timestamps-compared" } else { "c19:output-timestamps-wall-clock-dropped" });
     for t in &sc.prog.tags { ctx.count(&format!("prog:{}", t)); }
@@ -1007,7 +1027,7 @@ fn wev(ty: &str, ts_ns: i64, id: i64, x: i64, k: &str) -> Op {
 fn witness_scenarios() -> Vec<Scenario> {
     const S: i64 = 1_000_000_000;
     const MS: i64 = 1_000_000;
-    let mk = |text: &str, tags: Vec<&'static str>, wm: bool, ops: Vec<Op>| Scenario { prog: Prog { text: text.to_string(), types: vec![], tags, wm, var: false }, ops };
+    let mk = |text: &str, tags: Vec<&'static str>, wm: bool, ops: Vec<Op>| Scenario { prog: Prog { text: text.to_string(), types: vec![], tags, wm, var: false, wspec: None }, ops };
     vec![
         mk("stream W = T\n    .window(3, sliding: 2)\n    .emit(id: id)", vec!["witness", "slidingCount"], false,
            (0..7).map(|i| wev("T", i * S, i, 0, "a")).collect()),
@@ -1027,6 +1047,8 @@ fn witness_scenarios() -> Vec<Scenario> {
            vec![wev("A", 0, 0, 7, "a"), wev("A", 9_800 * MS, 1, 0, "z"), wev("A", 10_300 * MS, 2, 0, "z"), wev("A", 10_400 * MS, 3, 0, "z"), wev("B", 5 * S, 4, 8, "a")]),
         mk("stream J = join(A, B)\n    .on(A.k == B.k)\n    .window(10s)\n    .emit(k: A.k, ax: A.x, bx: B.x)", vec!["witness", "join"], false,
            vec![wev("A", 0, 0, 7, "a"), wev("A", 10 * S, 1, 0, "z"), wev("A", 12 * S, 2, 0, "z"), wev("B", 5 * S, 4, 8, "a")]),
+        mk("stream J = join(A, B)\n    .on(A.k == B.k)\n    .window(1s)\n    .emit(k: A.k, ax: A.x, bx: B.x)", vec!["witness", "join"], false,
+           vec![wev("A", 500_000, 0, 7, "a"), wev("B", S + 300_000, 1, 8, "a"), wev("A", 3 * S + 700_000, 2, 1, "a"), wev("B", 3 * S + 200_000, 3, 2, "a")]),
         mk("stream W = T\n    .watermark(out_of_order: 0s)\n    .window(5s)\n    .aggregate(n: count())\n    .emit(n: n)\n\nstream WU = U\n    .watermark(out_of_order: 0s)\n    .window(1s)\n    .aggregate(n: count())\n    .emit(un: n)",
            vec!["witness", "watermark", "two-sources"], true,
            vec![wev("T", 12 * S, 0, 0, "a"), wev("U", 2 * S, 1, 0, "a"), Op::Wm("U".into(), 8000), wev("U", 9 * S, 2, 0, "a")]),
